@@ -568,7 +568,7 @@ fn foreign_reservation_family(out: &mut Outcome) {
                                 Ok(Some(r)) => r,
                                 Ok(None) => continue,
                                 Err(_) => {
-                                    let info = crate::LAST_PANIC.lock().unwrap().take().unwrap_or_default();
+                                    let info = crate::take_last_panic().unwrap_or_default();
                                     out.violate(&format!("panic:{info}"), format!("writing into a foreign reservation panicked: {info} (total {total} a {a} k {k} w {w} b {b} n {n})"), String::new());
                                     continue;
                                 }
@@ -611,7 +611,7 @@ fn guarded(out: &mut Outcome, replay: impl FnOnce() -> String, f: impl FnOnce() 
         Ok(Ok(())) => {}
         Ok(Err(fail)) => out.violate(&fail.sig, fail.what, replay()),
         Err(_) => {
-            let info = crate::LAST_PANIC.lock().unwrap().take().unwrap_or_default();
+            let info = crate::take_last_panic().unwrap_or_default();
             let replay = replay();
             out.violate(&format!("panic:{info}"), format!("buffer operation panicked: {info} ({replay})"), replay);
         }
